@@ -69,6 +69,223 @@ fn parse_choice(s: &str) -> Option<Choice> {
     })
 }
 
+fn first_difference(a: &str, b: &str) -> String {
+    a.lines().zip(b.lines()).enumerate().find(|(_, (x, y))| x != y).map(|(i, (x, y))| format!("line {}: {:?} vs {:?}", i + 1, x.chars().take(160).collect::<String>(), y.chars().take(160).collect::<String>())).unwrap_or_else(|| "different length".into())
+}
+
+fn repeat_finding(src: &str, first: &str, second: &str) -> Finding {
+    let d = first_difference(first, second);
+    Finding::new(
+        "repeat_case",
+        json!({"source": src}),
+        format!("two calls of generate on the same text in one process, under the same iteration orders, give different results ({d}) — source {:?}", src.chars().take(300).collect::<String>()),
+        json!("the same bytes / the same error"),
+        json!(d),
+    )
+}
+
+/// A grammar in which every upper-case helper name of the emitted module is taken by the user.
+pub fn all_helpers_source() -> String {
+    "start S
+struct S(State Node)
+struct State($Eof)
+struct Node(Action)
+struct Action(RuleKind)
+struct RuleKind(Quasiterminal)
+struct Quasiterminal(QuasiterminalKind)
+struct QuasiterminalKind(NonterminalKind)
+struct NonterminalKind($ACTION_TABLE $GOTO_TABLE)
+terminal Terminal {
+    $Eof: ()
+    $ACTION_TABLE: ()
+    $GOTO_TABLE: ()
+}
+".to_string()
+}
+
+// ---------------------------------------------------------------------------------------------
+// Histories: generate as an operation on the state of the process. A history is a sequence of calls made
+// one after the other in ONE FRESH PROCESS (a child of this one); the observation of every call must equal
+// the observation of the same text called alone in a fresh process. All histories of length 2 (thorough:
+// and 3 over a smaller alphabet) over the history alphabet are run - the alphabet holds, for every helper
+// name, grammars that take that name in every upper-case role, so every path that renames, counts or
+// caches is both a possible cause and a possible victim.
+
+pub fn history_alphabet(tier: Tier) -> Vec<String> {
+    let mut v: Vec<String> = vec![all_helpers_source()];
+    v.extend(crate::c05::chain_sources().into_iter().enumerate().filter(|(i, _)| i % 8 == 0).map(|(_, s)| s));
+    let helpers = ["State", "Node", "Action", "RuleKind", "Eof", "Quasiterminal", "QuasiterminalKind", "NonterminalKind", "S", "ACTION_TABLE", "GOTO_TABLE", "Terminal", "Error"];
+    let cs = crate::c05::carriers();
+    for (ci, c) in cs.iter().enumerate().take(tier.pick(1, 3)) {
+        for (role, kind) in crate::c05::roles(c) {
+            if kind != crate::c05::RoleKind::Upper {
+                continue;
+            }
+            for h in helpers {
+                let mut pres = c.pres.clone();
+                pres.names.insert(role.clone(), h.to_string());
+                let src = crate::gramsweep::Case::new(c.g.clone(), pres).rendered.source;
+                if ci == 0 || !v.contains(&src) {
+                    v.push(src);
+                }
+            }
+        }
+    }
+    // one input per kind of outcome: lexical, syntactic, validation and conflict errors, the empty text, large files
+    for s in ["", "a`", "start", "start A
+struct A
+struct A
+terminal T {}", "start B
+struct A
+terminal T {}", "start A
+struct A(a)
+terminal T {}", "start E
+enum E { Add(E $Plus E) Id($Id) }
+terminal Tok { $Plus: () $Id: () }
+", "start S1
+enum S1 { X1($A Aa $D) X2($B Bb $D) X3($A Bb $E) X4($B Aa $E) }
+struct Aa($C)
+struct Bb($C)
+terminal Tok { $A: () $B: () $C: () $D: () $E: () }
+"] {
+        v.push(s.to_string());
+    }
+    v.extend(crate::corpus::repo_sources().into_iter().map(|(_, s)| s).filter(|s| s.len() < tier.pick(1200, 6000)));
+    v.sort();
+    v.dedup();
+    v
+}
+
+fn observe(src: &str) -> String {
+    match catch(|| kiki::generate(src)) {
+        Ok(Ok(s)) => format!("OK\n{}", s.0),
+        Ok(Err(e)) => format!("ERR {e:?}"),
+        Err(p) => format!("PANIC {}", normalize_panic(&p)),
+    }
+}
+
+/// Child process: `kiki-mc c14-history <alphabet.json> <i> <j> ...` - the calls are made in this order on the
+/// main thread of this fresh process; one line per call: SHA-256 of the observation (`--full`: the observation).
+pub fn child_history(args: &[String]) {
+    let full = args.iter().any(|a| a == "--full");
+    let args: Vec<&String> = args.iter().filter(|a| *a != "--full").collect();
+    let alphabet: Vec<String> = std::fs::read_to_string(args[0]).ok().and_then(|t| serde_json::from_str(&t).ok()).unwrap_or_else(|| machinery_error("c14-history: unreadable alphabet file"));
+    for a in &args[1..] {
+        let i: usize = a.parse().unwrap_or_else(|_| machinery_error("c14-history: bad index"));
+        let o = observe(&alphabet[i]);
+        if full {
+            println!("{}", serde_json::to_string(&o).unwrap());
+        } else {
+            println!("{}", crate::sha256::hex(o.as_bytes()));
+        }
+    }
+}
+
+fn run_history_child(alphabet_file: &std::path::Path, history: &[usize], full: bool) -> Vec<String> {
+    let exe = std::env::current_exe().unwrap_or_else(|e| machinery_error(format!("current_exe: {e}")));
+    let mut cmd = std::process::Command::new(&exe);
+    cmd.arg("c14-history").arg(alphabet_file);
+    if full {
+        cmd.arg("--full");
+    }
+    for i in history {
+        cmd.arg(i.to_string());
+    }
+    match cmd.output() {
+        Ok(o) if o.status.success() => {
+            let lines: Vec<String> = String::from_utf8_lossy(&o.stdout).lines().map(|l| l.to_string()).collect();
+            if lines.len() != history.len() {
+                machinery_error(format!("C14: a history child printed {} lines for {} calls", lines.len(), history.len()));
+            }
+            lines
+        }
+        Ok(o) => machinery_error(format!("C14: a history child failed ({:?}): {}", o.status, String::from_utf8_lossy(&o.stderr).chars().take(300).collect::<String>())),
+        Err(e) => machinery_error(format!("C14: cannot start a history child: {e}")),
+    }
+}
+
+fn history_finding(alphabet: &[String], history: &[usize], at: usize, alphabet_file: &std::path::Path) -> Finding {
+    // the full observations, for the report
+    let alone = run_history_child(alphabet_file, &[history[at]], true);
+    let inside = run_history_child(alphabet_file, history, true);
+    let d = first_difference(&serde_json::from_str::<String>(&alone[0]).unwrap_or_default(), &serde_json::from_str::<String>(&inside[at]).unwrap_or_default());
+    Finding::new(
+        "history_case",
+        json!({"history": history.iter().map(|i| alphabet[*i].clone()).collect::<Vec<_>>(), "call": at}),
+        format!("call {} of a history of {} calls of generate in one fresh process returns something else than the same text called alone in a fresh process ({d}) — the text is {:?}, the calls before it were on {:?}", at + 1, history.len(), alphabet[history[at]].chars().take(200).collect::<String>(), history[..at].iter().map(|i| alphabet[*i].chars().take(80).collect::<String>()).collect::<Vec<_>>()),
+        json!("the same bytes / the same error as in a fresh process"),
+        json!(d),
+    )
+}
+
+pub struct HistoryStats {
+    pub alphabet: usize,
+    pub histories: u64,
+    pub calls: u64,
+    pub max_len: usize,
+    pub triples_alphabet: usize,
+}
+
+pub fn run_histories(ctx: &Ctx, acc: &mut Acc) -> HistoryStats {
+    let alphabet = history_alphabet(ctx.tier);
+    let dir = ctx.root.join("scratch").join(format!("c14-histories-{}", std::process::id()));
+    std::fs::create_dir_all(&dir).unwrap_or_else(|e| machinery_error(format!("C14: cannot create {}: {e}", dir.display())));
+    let file = dir.join("alphabet.json");
+    std::fs::write(&file, serde_json::to_string(&alphabet).unwrap()).unwrap_or_else(|e| machinery_error(format!("C14: cannot write the alphabet file: {e}")));
+    let n = alphabet.len();
+    // depth 1: the reference observation of every text (twice, in two fresh processes: these must agree already)
+    let refs: Vec<(String, String)> = (0..n).into_par_iter().map(|i| (run_history_child(&file, &[i], false).remove(0), run_history_child(&file, &[i], false).remove(0))).collect();
+    let mut findings = vec![];
+    for (i, (a, b)) in refs.iter().enumerate() {
+        if a != b {
+            findings.push(Finding::new("fresh_process_case", json!({"source": alphabet[i]}), format!("generate gives different results for the same text in two fresh processes — {:?}", alphabet[i].chars().take(200).collect::<String>()), json!("identical results"), json!([a, b])));
+        }
+    }
+    let mut histories: Vec<Vec<usize>> = vec![];
+    for i in 0..n {
+        for j in 0..n {
+            histories.push(vec![i, j]);
+        }
+    }
+    // depth 3 over the sub-alphabet of the inputs that had the most to rename, plus one of every error kind
+    let mut sub: Vec<usize> = (0..n).filter(|i| alphabet[*i] == all_helpers_source() || alphabet[*i].len() < 12).collect();
+    sub.extend((0..n).filter(|i| alphabet[*i].contains("struct State2\n") || alphabet[*i].contains("enum E { Add")).take(3));
+    sub.extend((0..n).step_by((n / ctx.tier.pick(4, 16)).max(1)));
+    sub.sort();
+    sub.dedup();
+    for a in &sub {
+        for b in &sub {
+            for c in &sub {
+                histories.push(vec![*a, *b, *c]);
+            }
+        }
+    }
+    let results: Vec<Option<(usize, usize)>> = histories
+        .par_iter()
+        .enumerate()
+        .map(|(hi, h)| {
+            let got = run_history_child(&file, h, false);
+            got.iter().enumerate().find(|(k, d)| **d != refs[h[*k]].0).map(|(k, _)| (hi, k))
+        })
+        .collect();
+    let mut calls = 0u64;
+    for h in &histories {
+        calls += h.len() as u64;
+    }
+    for (hi, at) in results.into_iter().flatten() {
+        if findings.len() < 40 {
+            findings.push(history_finding(&alphabet, &histories[hi], at, &file));
+        } else {
+            acc.violating += 1;
+        }
+    }
+    for f in findings {
+        acc.finding(f);
+    }
+    let _ = std::fs::remove_dir_all(&dir);
+    HistoryStats { alphabet: n, histories: histories.len() as u64 + 2 * n as u64, calls: calls + 2 * n as u64, max_len: 3, triples_alphabet: sub.len() }
+}
+
 pub struct Explored {
     pub executions: u64,
     pub choice_points_taken: u64,
@@ -80,8 +297,14 @@ pub struct Explored {
 pub fn explore(name: &str, src: &str, bound: usize, cap: u64, acc: &mut Acc) -> Explored {
     let base = run_with(src, &[]);
     let again = run_with(src, &[]);
-    if base != again {
-        acc.self_check_errors.push(format!("uncontrolled nondeterminism: the identity schedule of {name} gave two different observations or traces"));
+    if base.observation != again.observation {
+        // same text, same iteration orders, same process: whatever made the difference (a counter, a cache, an
+        // address, the time) is state that generate must not depend on
+        acc.finding(repeat_finding(src, &base.observation, &again.observation));
+        // schedules cannot be compared with a baseline that is not one
+        return Explored { executions: 2, choice_points_taken: 0, capped_points: 0, points: base.trace.clone() };
+    } else if base != again {
+        acc.self_check_errors.push(format!("uncontrolled nondeterminism: the identity schedule of {name} passed different choice points on two runs"));
     }
     let mut ex = Explored { executions: 2, choice_points_taken: 0, capped_points: 0, points: base.trace.clone() };
     // breadth of deviation: prefixes with d non-identity choices
@@ -173,6 +396,11 @@ pub fn corpus(tier: Tier) -> Vec<(String, String)> {
     v.push(("dangling-else".into(), "start S1\nenum S1 { If($I S1) IfElse($I S1 $E S1) X($X) }\nterminal Tok { $I: () $E: () $X: () }\n".into()));
     v.push(("lr1-not-lalr".into(), "start S1\nenum S1 { X1($A Aa $D) X2($B Bb $D) X3($A Bb $E) X4($B Aa $E) }\nstruct Aa($C)\nstruct Bb($C)\nterminal Tok { $A: () $B: () $C: () $D: () $E: () }\n".into()));
     v.push(("two-conflicting-nonterminals".into(), "start A\nenum A { X(B C) }\nenum B { P($T B) Q($T) R($T $U) S($T $U) }\nenum C { P($U C) Q($U) R($U $T) S2($U $T) Z }\nterminal Tok { $T: () $U: () }\n".into()));
+    // names that clash with the generator's own helper names (renaming happens on these paths only)
+    v.push(("all-helper-names".into(), all_helpers_source()));
+    for (i, s) in crate::c05::chain_sources().into_iter().enumerate().filter(|(i, _)| i % 8 == 0) {
+        v.push((format!("uniquifier-chain#{i}"), s));
+    }
     // all of G(2,2,3,2) (accepted and conflicting alike), plain presentation with names in both orders
     {
         use crate::scopes::*;
@@ -287,6 +515,12 @@ pub fn run(ctx: &Ctx) -> Outcome {
     if let Some(e) = acc.self_check_errors.iter().find(|e| e.starts_with("uncontrolled nondeterminism")) {
         machinery_error(format!("C14: {e}"));
     }
+    // histories of calls in fresh processes (process state as the explored state)
+    let t_h = std::time::Instant::now();
+    let hs = run_histories(ctx, &mut acc);
+    executions += hs.calls;
+    out.cov("seconds_histories", json!(t_h.elapsed().as_secs_f64()));
+    out.cov("seconds_before_histories", json!(t0.elapsed().as_secs_f64() - t_h.elapsed().as_secs_f64()));
     // supplementary free-running pass with the real RandomState (sampling, labelled as such)
     let bypass = seam_bypass_scan();
     let children = if bypass.is_empty() { 8 } else { 64 };
@@ -301,10 +535,11 @@ pub fn run(ctx: &Ctx) -> Outcome {
     out.cov("scopes", json!([
         {"name": "corpus (repository files, multi-conflict grammars, G(2,2,3,2))", "inputs": inputs, "inputs_with_choice_points": with_points, "deviation_bound": bound, "all_permutations_up_to_n_factorial": cap, "for_scope_grammars": small_cap, "points_explored_with_generator_set_only": capped, "completed": skipped == 0, "exhaustive": skipped == 0, "inputs_skipped_by_budget": skipped},
         {"name": "all files of <= 3 items of the C10 space with >= 2 simultaneous violations", "inputs": invalid_inputs, "inputs_with_choice_points": invalid_with_points, "completed": true, "exhaustive": true},
+        {"name": format!("histories of calls in one fresh process: all of length 2 over {} texts, all of length 3 over {} of them", hs.alphabet, hs.triples_alphabet), "histories": hs.histories, "calls": hs.calls, "max_length": hs.max_len, "completed": true, "exhaustive": true},
     ]));
     out.cov("distinct_outcomes_per_input", json!(if acc.violating == 0 { 1 } else { 2 }));
     out.cov("seam_bypass", json!(bypass));
-    out.cov("free_running_pass", json!({"kind": "sampling (supplementary, never the verdict)", "child_processes": children, "result": match &free { Ok(n) => json!(format!("{n} inputs, identical digests in all processes")), Err(f) => json!(f.what) }}));
+    out.cov("free_running_pass", json!({"kind": "sampling (supplementary, never the verdict)", "child_processes": children, "result": match &free { Ok(n) => json!(format!("{n} inputs, each visited 3 times on different threads in every process, the processes visiting them in different orders: one digest per input")), Err(f) => json!(f.what) }}));
     out.cov("samples", json!(samples));
     out.cov("explanation", json!("one state = one execution of the real generate under a schedule of hash-iteration orders installed through the kiki::verif_collections seam; one transition = one choice point at which the schedule departs from or follows the identity order; all n! orders are tried where n! is below the cap, otherwise the generator set (adjacent transpositions, reversal, rotations); the same schedule is run twice and a replayed prefix must pass the same choice points (otherwise exit 2); every execution is an execution of the implementation"));
     out.violating_cases = acc.violating;
@@ -316,51 +551,98 @@ pub fn run(ctx: &Ctx) -> Outcome {
     out
 }
 
-/// Digest of the observations of the fixed corpus in this process (wrappers in pass-through mode, real RandomState).
-pub fn free_run_digest() -> String {
-    let mut all = String::new();
-    for (name, src) in corpus(Tier::Quick).iter().take(600) {
-        // several calls, on several threads, each with its own RandomState keys
-        let obs: Vec<String> = (0..3)
-            .into_par_iter()
-            .map(|_| match catch(|| kiki::generate(src)) {
-                Ok(Ok(s)) => s.0,
-                Ok(Err(e)) => format!("{e:?}"),
-                Err(p) => format!("panic {p}"),
-            })
-            .collect();
-        for o in &obs {
-            all.push_str(&format!("{name}\n{}\n", crate::sha256::hex(o.as_bytes())));
-        }
+/// Observations of the fixed corpus in this process (wrappers in pass-through mode, real RandomState): one line
+/// per input, `index digest digest digest`. `order` decides in which order the inputs are visited (rotation, and
+/// reversal for odd orders), so that the processes differ in their histories as well as in their hash keys.
+pub fn free_run_report(order: usize) -> String {
+    let c: Vec<(String, String)> = corpus(Tier::Quick).into_iter().take(600).collect();
+    let n = c.len();
+    let mut idx: Vec<usize> = (0..n).collect();
+    idx.rotate_left((order * 97) % n.max(1));
+    if order % 2 == 1 {
+        idx.reverse();
     }
-    crate::sha256::hex(all.as_bytes())
+    let mut lines: Vec<(usize, String)> = vec![];
+    for i in idx {
+        let src = &c[i].1;
+        // several calls, on several threads, each with its own RandomState keys
+        let obs: Vec<String> = (0..3).into_par_iter().map(|_| crate::sha256::hex(observe(src).as_bytes())).collect();
+        lines.push((i, obs.join(" ")));
+    }
+    lines.sort();
+    lines.into_iter().map(|(i, l)| format!("{i} {l}\n")).collect()
 }
 
 fn free_running_pass(children: usize) -> Result<u64, Finding> {
     let exe = std::env::current_exe().unwrap_or_else(|e| machinery_error(format!("current_exe: {e}")));
-    let digests: Vec<String> = (0..children)
+    let reports: Vec<String> = (0..children)
         .into_par_iter()
-        .map(|_| {
-            let o = std::process::Command::new(&exe).arg("free-run").output();
+        .map(|k| {
+            let o = std::process::Command::new(&exe).arg("free-run").arg(k.to_string()).output();
             match o {
-                Ok(o) if o.status.success() => String::from_utf8_lossy(&o.stdout).trim().to_string(),
+                Ok(o) if o.status.success() => String::from_utf8_lossy(&o.stdout).to_string(),
                 _ => "child failed".to_string(),
             }
         })
         .collect();
-    if digests.iter().any(|d| d == "child failed") {
+    if reports.iter().any(|d| d == "child failed") {
         machinery_error("C14: a free-running child process failed");
     }
-    if digests.windows(2).all(|w| w[0] == w[1]) {
-        Ok(600)
-    } else {
-        Err(Finding::new("free_run", json!({"children": children}), "generate gave different results in different processes (real RandomState, free-running pass)".to_string(), json!("identical digests"), json!(digests)))
+    // every digest of an input, in every process and on every thread, must be the same
+    let c: Vec<(String, String)> = corpus(Tier::Quick).into_iter().take(600).collect();
+    let mut per_input: std::collections::BTreeMap<usize, std::collections::BTreeSet<String>> = Default::default();
+    for r in &reports {
+        for l in r.lines() {
+            let mut it = l.split(' ');
+            let i: usize = it.next().and_then(|x| x.parse().ok()).unwrap_or_else(|| machinery_error("C14: unreadable free-run report"));
+            per_input.entry(i).or_default().extend(it.map(|x| x.to_string()));
+        }
+    }
+    if per_input.len() != c.len() {
+        machinery_error(format!("C14: the free-run reports cover {} of {} inputs", per_input.len(), c.len()));
+    }
+    match per_input.iter().find(|(_, d)| d.len() != 1) {
+        None => Ok(c.len() as u64),
+        Some((i, d)) => Err(Finding::new(
+            "free_run",
+            json!({"source": c[*i].1, "children": children}),
+            format!("generate gave {} different results for one text across {} free-running processes that visit the corpus in different orders (real RandomState) — input {}: {:?}", d.len(), children, c[*i].0, c[*i].1.chars().take(200).collect::<String>()),
+            json!("one result"),
+            json!(d),
+        )),
     }
 }
 
 pub fn replay(kind: &str, case: &Value) -> Option<Vec<Finding>> {
-    if kind == "free_run" {
-        return None;
+    if kind == "repeat_case" {
+        let src = case["source"].as_str()?;
+        let a = run_with(src, &[]);
+        let b = run_with(src, &[]);
+        return Some(if a.observation != b.observation {
+            let mut f = repeat_finding(src, &a.observation, &b.observation);
+            f.observed = json!("a different result");
+            vec![f]
+        } else {
+            vec![]
+        });
+    }
+    if kind == "history_case" {
+        // fresh children: the text alone, and the recorded history
+        let hist: Vec<String> = case["history"].as_array()?.iter().map(|x| x.as_str().unwrap_or("").to_string()).collect();
+        let at = case["call"].as_u64()? as usize;
+        let root = std::env::var_os("VERIF_ROOT").map(std::path::PathBuf::from).unwrap_or_else(|| std::path::PathBuf::from("/verif"));
+        let dir = root.join("scratch").join(format!("c14-replay-{}-{:?}", std::process::id(), std::thread::current().id()));
+        std::fs::create_dir_all(&dir).ok()?;
+        let file = dir.join("alphabet.json");
+        std::fs::write(&file, serde_json::to_string(&hist).unwrap()).ok()?;
+        let alone = run_history_child(&file, &[at], false);
+        let inside = run_history_child(&file, &(0..hist.len()).collect::<Vec<_>>(), false);
+        let _ = std::fs::remove_dir_all(&dir);
+        return Some(if alone[0] != inside[at] {
+            vec![Finding::new("history_case", case.clone(), "the call returns something else inside the history than alone in a fresh process".to_string(), json!("same result"), json!("different result"))]
+        } else {
+            vec![]
+        });
     }
     if kind != "schedule_case" {
         return None;
@@ -372,7 +654,8 @@ pub fn replay(kind: &str, case: &Value) -> Option<Vec<Finding>> {
     let r = run_with(src, &sched);
     Some(if r.observation != base.observation {
         let first_diff = base.observation.lines().zip(r.observation.lines()).enumerate().find(|(_, (a, b))| a != b).map(|(i, (a, b))| format!("line {}: {:?} vs {:?}", i + 1, a.chars().take(160).collect::<String>(), b.chars().take(160).collect::<String>())).unwrap_or_else(|| "different length".into());
-        vec![Finding::new("schedule_case", case.clone(), "the result depends on the iteration order of a hash collection".to_string(), json!("same result as the identity schedule"), json!(first_diff))]
+        // (`observed` is what the replay-stability test compares: it must not contain the varying text itself)
+        vec![Finding::new("schedule_case", case.clone(), format!("the result depends on the iteration order of a hash collection ({first_diff})"), json!("same result as the identity schedule"), json!("a different result"))]
     } else {
         vec![]
     })
